@@ -31,3 +31,7 @@ chk("C10","exploration",
  "sort field x direction x (LIMIT, OFFSET) grid x filters x 8 layouts x configurations on data with duplicate and missing sort keys; each reply must be sorted under the typed order, be the right positional slice (as a multiset of sort keys) of the same state's unordered selection, contain no event twice; OFFSET without LIMIT must be rejected",
  "byte order for strings; rows with a missing key may come first or last; exact-case known findings in known/C10.*.json",
  "bounded exhaustive enumeration of order/limit/offset queries x layouts against a reference slice of the system's own selection","histx product mode","DESIGN.md §3 C10")
+chk("C03","model_checking",
+ "for every history of the stated set and every named step boundary (gate) of the rotation under test - 11 flush-worker gates and 6 gates inside the zone writer - the flush task is held there on the real engine while a second client stores 2*capacity more events (queueing further rotations) and runs the read suite after every STORE with no barrier; thorough adds a second deviation (the rotation queued behind is held at each of its gates after the first was released): all schedules with <= D deviations are executed and every read is judged against the reference set of acknowledged events",
+ "switch points are the named gates; inside a step tokio's order is followed (a read racing with the un-gated interior of a step is outside the explored space); listed defects are matched by predictors over the gate log",
+ "exhaustive deviation-bounded schedule enumeration of the real implementation under a gate-controlled scheduler","schedx","DESIGN.md §2.7 §3 C03")
